@@ -2508,12 +2508,15 @@ func VerifNamespaces(n int) {
 
 // ---- C23: completion ----
 
+const verifCfgHw = `{"frame": "Builtin", "class": "Hw", "extends": [], "instance_methods": [], "class_methods": [{"name": "probe", "arguments": [], "return_type": {"type": ["Hw::Unit"]}}, {"name": "new", "arguments": [{"type": ["Int"]}], "return_type": {"type": ["Hw"]}}]}`
+const verifCfgHwUnit = `{"frame": "Builtin::Hw", "class": "Unit", "extends": [], "instance_methods": [{"name": "read_mv", "arguments": [], "return_type": {"type": ["Int"]}}], "class_methods": [{"name": "calibrate", "arguments": [], "return_type": {"type": ["NilClass"]}}]}`
+
 // VerifSuggest: --suggest on a cursor row holding a receiver (with or without the trailing
 // dot) after a small user hierarchy. The listing must contain the methods callable on the
 // receiver (own, inherited, Object's) and none that only unrelated classes define, no class
 // methods for an instance receiver (and vice versa), no private method of another class.
 func VerifSuggest(n int) {
-	recv := verifapi.Concrete(verifapi.Int("receiver", 0, 4))
+	recv := verifapi.Concrete(verifapi.Int("receiver", 0, 8))
 	dot := verifapi.Concrete(verifapi.Int("dot", 0, 2))
 	s := &verifSym{}
 	if recv == 2 {
@@ -2529,8 +2532,23 @@ func VerifSuggest(n int) {
 		// a class receiver whose user-defined name has no lower-case letter
 		src = "class SENSOR\ndef self.scan\n1\nend\ndef inst_s\n2\nend\nend\nclass ADC < SENSOR\ndef self.open\n3\nend\ndef inst_a\n4\nend\nend\nclass OTHER\ndef self.oth\n5\nend\nend\nv = 1\n"
 	}
+	if recv >= 6 {
+		// configured classes outside the shipped files: Hw (top level, own `new`) and Hw::Unit
+		// (declared in the nested frame Builtin::Hw), loaded by the real loader
+		filesW := ""
+		for _, f := range [][2]string{{"hw", verifCfgHw}, {"hw_unit", verifCfgHwUnit}} {
+			verifapi.SetFile(".ti-config/"+f[0]+".json", f[1])
+			filesW += f[0] + ".json\x1e" + f[1] + "\x1d"
+		}
+		verifapi.Witness("extra-config-files", filesW)
+		verifapi.VfsOnly(".ti-config")
+		builtin.VerifLoadConfigAgain()
+	}
+	if recv == 8 {
+		src = strings.Replace(src, "v = 1\n", "v = Hw.probe\n", 1)
+	}
 	row := verifCountLines(src) + 1
-	cursor := []string{"k", "Bb", "v", "[1]", "ADC"}[recv]
+	cursor := []string{"k", "Bb", "v", "[1]", "ADC", "Array", "Hw", "Hw::Unit", "v"}[recv]
 	if dot >= 1 {
 		cursor += "."
 	}
@@ -2545,7 +2563,8 @@ func VerifSuggest(n int) {
 	out := verifRunFlags(src, flags, row)
 	verifapi.Reach("ran")
 	form := []string{"receiver-alone", "receiver-with-trailing-dot", "receiver-with-trailing-dot-followed-by-a-statement"}[dot]
-	rname := []string{"user-instance", "user-class", "configured-class-value", "array-literal", "user-class-with-upper-case-only-name"}[recv]
+	rname := []string{"user-instance", "user-class", "configured-class-value", "array-literal", "user-class-with-upper-case-only-name",
+		"configured-class-with-own-new", "extra-configured-class", "extra-configured-class-in-nested-frame", "value-of-extra-configured-class-in-nested-frame"}[recv]
 	must := func(id, m, what string) {
 		verifapi.Witness(id+".must", m)
 		verifapi.Classify("C23/callable-method-not-listed/" + what + "/" + rname + "/" + form)
@@ -2582,6 +2601,24 @@ func VerifSuggest(n int) {
 		must("C23-inh", "scan", "inherited-class-method")
 		mustNot("C23-unrel", "oth", "method-of-unrelated-class")
 		mustNot("C23-static", "inst_a", "instance-method-for-class-receiver")
+	case 5:
+		must("C23-own", "new", "configured-constructor")
+		mustNot("C23-static", "push", "instance-method-for-class-receiver")
+		mustNot("C23-unrel", "upcase", "method-of-unrelated-class")
+	case 6:
+		must("C23-own", "probe", "configured-class-method")
+		must("C23-new", "new", "configured-constructor")
+		mustNot("C23-unrel", "calibrate", "method-of-unrelated-class")
+		mustNot("C23-unrel2", "pz", "method-of-unrelated-class")
+	case 7:
+		must("C23-own", "calibrate", "configured-class-method")
+		mustNot("C23-static", "read_mv", "instance-method-for-class-receiver")
+		mustNot("C23-unrel", "probe", "method-of-unrelated-class")
+	case 8:
+		must("C23-own", "read_mv", "configured-class-method")
+		mustNot("C23-static", "calibrate", "class-method-for-instance-receiver")
+		mustNot("C23-unrel", "probe", "method-of-unrelated-class")
+		mustNot("C23-unrel2", "pz", "method-of-unrelated-class")
 	case 3:
 		must("C23-own", "push", "configured-class-method")
 		mustNot("C23-unrel", "upcase", "method-of-unrelated-class")
